@@ -92,7 +92,7 @@ def check_step(ctx, name, par):
         cond_ok = len(q.conds) == 1 and q.conds[0][1] == 0
         ctx.check(cond_ok, "R09.2", name + "/Owned-only-on-collect-Ok-edge", cond_str(q)[:200], at)
         # result type of the collect
-        term = F.fns[b["coll"][4][0]].blocks[b["coll"][4][1]]["term"]
+        term = F.fns[b["coll"][4][-2]].blocks[b["coll"][4][-1]]["term"]
         tys = [a.get("s", "") for a in term.get("targs", [])]
         ctx.check(any(s.startswith("std::result::Result<") for s in tys), "R09.2", name + "/collect-into-Result", "; ".join(tys)[:160], at)
         # worker closure
